@@ -755,6 +755,9 @@ fn scale_invariance_fp<const M: usize>() {
 
     // ---- run B: user's presentation
     let mut data_b = DefaultProblemData::<F>::new(&Pm, &[q], &Am, &b, &cones, &st);
+    // (the constructor caps b at the infinity bound with T::min - an order comparison that means nothing in a
+    // field: b is written back after construction, as in run A; first version of this harness: false alarm)
+    data_b.b.copy_from_slice(&b);
     let mut vb = DefaultVariables::<F>::new(1, M);
     vb.x[0] = x * d;
     let mut i = 0;
